@@ -364,6 +364,7 @@ func (c *Ctx) VerifyLemma(name string) (rep *FuncReport) {
 		case "assume":
 			c.addFact(ev.boolTerm(s.Expr))
 		case "let":
+			ev.mutate = true
 			env[s.Name] = ev.eval(s.Expr)
 		case "assert":
 			lbl := s.Label
